@@ -50,7 +50,7 @@ LAMBDAS = [2.0, 0.5, 1.3]
 MUS = [1.7, 0.5]
 BOUNDS = {
     "quick": {"D": 1, "lambda": LAMBDAS, "mu": MUS, "q1d": [0.011, 0.07, 0.31], "dims": "1d + 2d (oriented models)",
-              "factors_per_parameter": 1, "exponent_search": "{-2..3}^k (k<=5) or <=2 rows off the declaration"},
+              "factors_per_parameter": 2, "exponent_search": "{-2..3}^k (k<=5) or <=2 rows off the declaration"},
     "thorough": {"D": 2, "lambda": LAMBDAS, "mu": MUS, "q1d": [0.011, 0.07, 0.31], "dims": "1d + 2d (oriented models)",
                  "factors_per_parameter": 2, "exponent_search": "{-2..3}^k (k<=5) or <=2 rows off the declaration"},
 }
@@ -200,6 +200,14 @@ class Ev(object):
         self.kern = {}
         self.ncalls = 0
 
+    def for_dim(self, dim):
+        """an evaluator of the same model for another q shape (the exponent search works in 1-D)"""
+        if dim == self.dim:
+            return self
+        if "other" not in self.kern:
+            self.kern["other"] = Ev(self.model, dim)
+        return self.kern["other"]
+
     def kernel(self, lam):
         if lam not in self.kern:
             self.kern[lam] = self.model.make_kernel(_q(self.dim, lam))
@@ -243,7 +251,7 @@ def run_case(case, ctx):
     dim = case["dim"]
     ev = Ev(m, dim)
     decl = declared(info)
-    nfac = 1 if ctx.quick else 2
+    nfac = 2
     # parameter sets of this case
     sets = []
     if not case["vary"]:
@@ -332,9 +340,36 @@ def _judge(r, ev, case, desc, pars, I0, lam, mu, decl, clause, nt, reported, ctx
             r.ok(nt=nt, outcome="FAIL-dup")
         return
     found = exponent_search(case["model"])
-    text += "\n  " + found["note"]
+    hints, note = found["hints"], found["note"]
+    if hints == ["ambiguous"]:
+        # the search sets did not discriminate (a parameter that only matters in this combination):
+        # keep the candidates that also satisfy their law at the failing parameter set itself
+        keep = []
+        for cand, power in found.get("pool", []):
+            exps = dict(decl)
+            exps.update(cand)
+            good = True
+            for l2 in (1.3, 0.5):
+                try:
+                    res2, _, _ = residual(ev.for_dim("1d"), pars, l2, 1.0, exps, None, power=power)
+                except Exception:  # noqa
+                    res2 = None
+                if res2 is None or res2 > 1.0:
+                    good = False
+                    break
+            if good:
+                keep.append((cand, power))
+        if len(keep) == 1 and keep[0][1] == 3:
+            units = {rid: u for rid, u, _, _, _ in rows(ev.info)}
+            diff = [rid for rid in sorted(keep[0][0]) if keep[0][0][rid] != decl[rid]]
+            if diff:
+                hints = diff
+                note += ("; at THIS parameter set exactly one of them holds - UNIQUE repair: " + "; ".join(
+                    "%s declared %r (lambda^%d) behaves as lambda^%d -> unit %s"
+                    % (rid, units[rid], decl[rid], keep[0][0][rid], EXP_UNIT.get(keep[0][0][rid])) for rid in diff))
+    text += "\n  " + note
     new = False
-    for h in found["hints"]:
+    for h in hints:
         key = (clause, h)
         if key not in reported:
             reported.add(key)
@@ -580,6 +615,7 @@ def _exponent_search(model_name):
         out["note"] = head + "no assignment gives (I-bg) ~ lambda^k for an integer k"
     else:
         out["hints"] = ["ambiguous"]
+        out["pool"] = [[c, p_] for c, p_ in pool[:64]]
         out["note"] = head + "%d assignments are consistent, e.g. %s" % (len(pool), pool[:3])
     return out
 
